@@ -58,6 +58,9 @@ pub enum Storage {
     Mem,
     /// DbBacked<SimKv>
     Db { cache_cap: u64, ser_workers: usize, group_max: u32 },
+    /// DbBacked over a shipped backend ("rocksdb" | "fjall") on a scratch
+    /// directory; the pipeline runs freely
+    Real { backend: String, cache_cap: u64 },
 }
 
 #[derive(Clone, Debug, PartialEq, Eq, Hash, Serialize, Deserialize)]
@@ -106,4 +109,8 @@ pub struct ReplayFile {
     pub class: String,
     pub message: String,
     pub known: Option<String>,
+    /// real-backend crash runs: the write-behind event at which the child
+    /// process killed itself
+    #[serde(default)]
+    pub kill_at: Option<u64>,
 }
